@@ -106,8 +106,11 @@ class Check:
         # obligations emitted inside the run (loop invariants, callee preconditions, stub preconditions)
         short = qualname.split(".", 1)[-1]
         for i, p in enumerate(paths):
+            seen: dict = {}
             for (name, facts, goal, kind) in p.obligs:
-                self.vc(f"{short}.{name}.path{i}", facts, goal, func=f"{module}.{qualname}", kind=kind)
+                k = seen.get(name, 0)
+                seen[name] = k + 1
+                self.vc(f"{short}.{name}.path{i}" + (f".{k}" if k else ""), facts, goal, func=f"{module}.{qualname}", kind=kind)
         self.path_count += len(paths)
         return paths
 
